@@ -4,10 +4,42 @@
 
 package hamt
 
-// Find reads the shard tree (it may load and cache child shards; none of that state is
-// visible to the directory layer above)
+// ---- C16: abstract size of the entries a shard tree holds -----------------------------------------
+// in the two units a directory may estimate with: the exact dag-pb link entry bytes of an entry under
+// its own name (linkEntryBytes, declared with the ProtoNode contracts) and the legacy name+CID estimate.
+// shardNamed*(s, name) is the size of the entry called name, 0 when there is none. The shard tree's own
+// state (child shards loaded and cached, the slot-prefixed internal link names) is not visible to the
+// directory layer above and is not modelled: these contracts are assumed, not proved.
+//@ ghost shardBlockBytes(s *Shard) int
+//@ ghost shardLinksBytes(s *Shard) int
+//@ ghost shardNamedBlock(s *Shard, name string) int
+//@ ghost shardNamedLinks(s *Shard, name string) int
+//@ spec linksEstimate(name string, c cid.Cid) int
+//@ spec nodeCidOf(n ipld.Node) cid.Cid
+//@ spec nodeSizeOf(n ipld.Node) uint64
 //@ func (*Shard).Find
 //@   assumed
+//@   ensures[found] err == nil ==> result0 != nil && shardNamedBlock(ds, name) > 0 && shardNamedBlock(ds, name) == linkEntryBytes(len(name), result0.Cid, result0.Size) && shardNamedLinks(ds, name) == linksEstimate(name, result0.Cid)
+//@   ensures[failed] err != nil ==> result0 == nil
+//@   ensures[no_such_entry] err == os.ErrNotExist ==> shardNamedBlock(ds, name) == 0 && shardNamedLinks(ds, name) == 0
+//@ func (*Shard).Swap
+//@   assumed
+//@   modifies shardBlockBytes(ds), shardLinksBytes(ds), shardNamedBlock(ds, name), shardNamedLinks(ds, name)
+//@   ensures[old_entry_returned] err == nil ==> (result0 != nil) == (old(shardNamedBlock(ds, name)) > 0)
+//@   ensures[old_entry_sizes] err == nil && result0 != nil ==> old(shardNamedBlock(ds, name)) == linkEntryBytes(len(name), result0.Cid, result0.Size) && old(shardNamedLinks(ds, name)) == linksEstimate(name, result0.Cid)
+//@   ensures[no_old_entry] err == nil && result0 == nil ==> old(shardNamedLinks(ds, name)) == 0 && old(shardNamedBlock(ds, name)) == 0
+//@   ensures[new_entry] err == nil ==> shardNamedBlock(ds, name) == linkEntryBytes(len(name), nodeCidOf(node), nodeSizeOf(node)) && shardNamedLinks(ds, name) == linksEstimate(name, nodeCidOf(node))
+//@   ensures[totals] err == nil ==> shardBlockBytes(ds) == old(shardBlockBytes(ds)) - old(shardNamedBlock(ds, name)) + shardNamedBlock(ds, name) && shardLinksBytes(ds) == old(shardLinksBytes(ds)) - old(shardNamedLinks(ds, name)) + shardNamedLinks(ds, name)
+//@   ensures[failed_changes_nothing] err != nil ==> result0 == nil && shardBlockBytes(ds) == old(shardBlockBytes(ds)) && shardLinksBytes(ds) == old(shardLinksBytes(ds)) && shardNamedBlock(ds, name) == old(shardNamedBlock(ds, name)) && shardNamedLinks(ds, name) == old(shardNamedLinks(ds, name))
+//@ func (*Shard).Take
+//@   assumed
+//@   modifies shardBlockBytes(ds), shardLinksBytes(ds), shardNamedBlock(ds, name), shardNamedLinks(ds, name)
+//@   ensures[taken] err == nil ==> result0 != nil && old(shardNamedBlock(ds, name)) == linkEntryBytes(len(name), result0.Cid, result0.Size) && old(shardNamedLinks(ds, name)) == linksEstimate(name, result0.Cid) && shardNamedBlock(ds, name) == 0 && shardNamedLinks(ds, name) == 0
+//@   ensures[totals] err == nil ==> shardBlockBytes(ds) == old(shardBlockBytes(ds)) - old(shardNamedBlock(ds, name)) && shardLinksBytes(ds) == old(shardLinksBytes(ds)) - old(shardNamedLinks(ds, name))
+//@   ensures[failed_changes_nothing] err != nil ==> result0 == nil && shardBlockBytes(ds) == old(shardBlockBytes(ds)) && shardLinksBytes(ds) == old(shardLinksBytes(ds)) && shardNamedBlock(ds, name) == old(shardNamedBlock(ds, name)) && shardNamedLinks(ds, name) == old(shardNamedLinks(ds, name))
+//@ func (*Shard).SetLink
+//@   assumed
+//@   modifies shardBlockBytes(ds), shardLinksBytes(ds), shardNamedBlock(ds, name), shardNamedLinks(ds, name)
 
 // ---- C15: the bit cursor over a name's hash --------------------------------------------------
 // Next(i)/next(i) consume exactly i bits, never read outside the hash, and return a value below
